@@ -299,13 +299,27 @@ func (r *mvRun) exec(op []interface{}) bool {
 		go func() { done <- d.Visitor(s, cb, shards, conc) }()
 		var err error
 		hang := false
-		select {
-		case err = <-done:
-		case <-time.After(30 * time.Second):
-			hang = true
-			buf := make([]byte, 1<<20)
-			n := runtime.Stack(buf, true)
-			os.WriteFile(*mvHangDump, buf[:n], 0644)
+		// watchdog: a hang is "no callback for 30 s and the call has not returned" (a slow machine still makes progress)
+		lastCalls, idle := -1, 0
+	wait:
+		for {
+			select {
+			case err = <-done:
+				break wait
+			case <-time.After(5 * time.Second):
+				<-mu
+				c := calls
+				mu <- struct{}{}
+				if c != lastCalls {
+					lastCalls, idle = c, 0
+				} else if idle++; idle >= 6 {
+					hang = true
+					buf := make([]byte, 1<<20)
+					n := runtime.Stack(buf, true)
+					os.WriteFile(*mvHangDump, buf[:n], 0644)
+					break wait
+				}
+			}
 		}
 		out := make([][][2]int, len(res))
 		for i := range res {
